@@ -24,12 +24,19 @@ func GetLocalLock(ctx iface.OrdaContext, lockName string) *LocalLock {
 		mutex:    golock.NewCASMutex(),
 		lockName: lockName,
 	})
+	registered := value.(*LocalLock)
 	if loaded {
 		ctx.L().Infof("[🔒] load lock '%v'", lockName)
-	} else {
-		ctx.L().Infof("[🔒] create lock '%v'", lockName)
+		// the registered lock keeps the context of the request that created it; every request has to wait
+		// on its OWN context (the first one is cancelled as soon as that request returns), on the same mutex
+		return &LocalLock{
+			ctx:      ctx,
+			mutex:    registered.mutex,
+			lockName: lockName,
+		}
 	}
-	return value.(*LocalLock)
+	ctx.L().Infof("[🔒] create lock '%v'", lockName)
+	return registered
 }
 
 // TryLock tries to a local lock, and returns true if it succeeds; otherwise false
